@@ -227,6 +227,25 @@ func init() {
 			return iface{t: types.NewPointer(vt), v: &cell}
 		},
 
+		// http.Client.Do = Transport.RoundTrip (no redirects, cookies or timeouts are in play)
+		"(*net/http.Client).Do": func(fr *frame, args []value) value {
+			c := args[0].(*value)
+			if c == nil {
+				panic(runtimePanic{"runtime error: invalid memory address or nil pointer dereference"})
+			}
+			tr := (*c).(structure)[0].(iface)
+			if tr.t == nil {
+				panic(engineErrorf("http.Client.Do stub: nil Transport (the default transport is not interpretable)"))
+			}
+			mset := fr.i.prog.MethodSets.MethodSet(tr.t)
+			for k := 0; k < mset.Len(); k++ {
+				if mset.At(k).Obj().Name() == "RoundTrip" {
+					return call(fr.i, fr, token.NoPos, fr.i.prog.MethodValue(mset.At(k)), []value{tr.v, args[1]})
+				}
+			}
+			panic(engineErrorf("http.Client.Do stub: Transport has no RoundTrip"))
+		},
+
 		// GODEBUG settings: always the default
 		"(*internal/godebug.Setting).Value":         func(fr *frame, args []value) value { return "" },
 		"(*internal/godebug.Setting).IncNonDefault": extNop,
